@@ -18,6 +18,7 @@ type Env struct {
 	info  *types.Info
 	pkg   string
 	depth int
+	loopEntry *Env // state at the moment the loop was entered, for atEntry(...)
 	side  *[]string // side facts produced while translating (e.g. axioms of s_sub terms)
 }
 
@@ -274,6 +275,11 @@ func (e *Env) global(gv *types.Var) Val {
 	if e.heap == nil {
 		e.fail(nil, "global "+gv.Name()+" in heap-free spec function")
 	}
+	if !cx.w.StoredGlobals[gv.Pkg().Name()+"."+gv.Name()] && !cx.inInit {
+		n := "gv_" + gv.Pkg().Name() + "_" + gv.Name()
+		cx.declUF(n, fmt.Sprintf("(declare-const %s %s)", n, cx.sortOf(gv.Type())))
+		return Val{S: n, T: gv.Type()}
+	}
 	name := "g_" + gv.Pkg().Name() + "_" + gv.Name()
 	cx.declUF(name, fmt.Sprintf("(declare-const %s %s)", name, cx.intSort()))
 	key := cx.cellKey(gv.Type())
@@ -377,6 +383,11 @@ func (e *Env) call(x *ast.CallExpr) Val {
 			e.fail(x, "old() not available here")
 		}
 		return e.old.exprWithInfo(x.Args[0], e)
+	case "atEntry":
+		if e.loopEntry == nil {
+			e.fail(x, "atEntry() is only available in loop invariants")
+		}
+		return e.loopEntry.exprWithInfo(x.Args[0], e)
 	case "implies":
 		a, b := e.expr(x.Args[0]), e.expr(x.Args[1])
 		return Val{S: fmt.Sprintf("(=> %s %s)", a.S, b.S), T: types.Typ[types.Bool]}
